@@ -651,7 +651,12 @@ func (req *Request) buildDistributedRequestData(subBackends []string) (requestDa
 	if len(req.Columns) != 0 {
 		requestData["columns"] = req.Columns
 	} else if !isStatsRequest {
-		panic("columns undefined for dispatched request")
+		// no columns header means all columns of the table
+		columns := make([]string, 0, len(req.RequestColumns))
+		for _, col := range req.RequestColumns {
+			columns = append(columns, col.Name)
+		}
+		requestData["columns"] = columns
 	}
 
 	// Filter
